@@ -45,6 +45,10 @@ type List struct {
 	// View: produced by slicing another slice or array; the model copies the elements, so a store through a view is
 	// not seen by the base.  Spare: the view is shorter than its base, an append would overwrite the base's elements.
 	View, Spare bool
+	// Base, Off: for a view of a list, the list it was cut from and where; a store or copy through the view is written
+	// to the base as well (a view sees what was in the base when it was cut, not later writes to the base)
+	Base *List
+	Off  int
 	// GoType: the static slice type the list had when it was last boxed into an interface (type assertions on it)
 	GoType types.Type
 }
@@ -670,7 +674,10 @@ func (ip *Interp) store(addr, val Value) {
 			a.Arr.Elems[a.I] = val
 		} else {
 			if a.List.View {
-				undecided("store through a re-sliced slice (aliasing with its base is not modelled)")
+				if a.List.Base == nil || a.List.Off+a.I >= len(a.List.Base.Elems) {
+					undecided("store through a re-sliced slice (aliasing with its base is not modelled)")
+				}
+				a.List.Base.Elems[a.List.Off+a.I] = val
 			}
 			a.List.Elems[a.I] = val
 		}
@@ -850,6 +857,34 @@ func (ip *Interp) builtin(name string, args []Value, site ssa.CallInstruction) V
 		undecided("delete on %s", Show(args[0]))
 	case "print", "println":
 		return nil
+	case "copy":
+		dst, ok1 := args[0].(*List)
+		var src []Value
+		switch x := args[1].(type) {
+		case *List:
+			src = x.Elems
+		case Str:
+			undecided("copy from a string")
+		default:
+			undecided("copy from %s", Show(args[1]))
+		}
+		if !ok1 {
+			undecided("copy into %s", Show(args[0]))
+		}
+		n := len(src)
+		if len(dst.Elems) < n {
+			n = len(dst.Elems)
+		}
+		for i := 0; i < n; i++ {
+			if dst.View {
+				if dst.Base == nil || dst.Off+i >= len(dst.Base.Elems) {
+					undecided("copy into a re-sliced slice whose base the model lost")
+				}
+				dst.Base.Elems[dst.Off+i] = src[i]
+			}
+			dst.Elems[i] = src[i]
+		}
+		return Int(int64(n))
 	case "ssa:wrapnilchk":
 		// the receiver check of a promoted / pointer-receiver wrapper method
 		if _, isNil := args[0].(Nil); isNil {
@@ -1077,7 +1112,14 @@ func (ip *Interp) step(f *frame, v ssa.Value) Value {
 			panic(&GoPanic{Msg: "slice bounds out of range"})
 		}
 		_, fromList := base.(*List)
-		return &List{Elems: append([]Value(nil), elems[lo:hi]...), View: fromList && len(elems) > 0, Spare: hi < len(elems)}
+		out := &List{Elems: append([]Value(nil), elems[lo:hi]...), View: fromList && len(elems) > 0, Spare: hi < len(elems)}
+		if bl, isL := base.(*List); isL && out.View {
+			out.Base, out.Off = bl, lo
+			if bl.Base != nil {
+				out.Base, out.Off = bl.Base, bl.Off+lo
+			}
+		}
+		return out
 	case *ssa.TypeAssert:
 		val := ip.eval(f, x.X)
 		var ok, known bool
